@@ -2090,11 +2090,15 @@ class AstEval:
                 #
                 # find unbound names from the body of the function or class
                 #
-                inner_global, inner_names, inner_local = set(), set(), set()
+                inner_global, inner_names, inner_local, inner_nonlocal = set(), set(), set(), set()
                 for child in arg.body:
-                    await self.get_names_set(child, inner_names, None, inner_global, inner_local)
+                    await self.get_names_set(child, inner_names, inner_nonlocal, inner_global, inner_local)
                 for name in inner_names:
-                    if name not in inner_local and name not in inner_global:
+                    #
+                    # a name the inner function declares nonlocal belongs to an enclosing
+                    # function even if the inner function assigns it
+                    #
+                    if (name not in inner_local or name in inner_nonlocal) and name not in inner_global:
                         names.add(name)
                 return
             elif cls_name == "Delete":
